@@ -420,7 +420,7 @@ class Ctx:
         cov = {
             "states": self.states, "transitions": self.transitions,
             "traces_validated_against_impl": self.validated,
-            "samples": self.samples[:8] or [{"note": "no sample"}],
+            "samples": [shrink(x) for x in self.samples[:8]] or [{"note": "no sample"}],
             "exhaustive": self.exhaustive,
         }
         cov.update(self.cov)
@@ -439,6 +439,18 @@ class Ctx:
             self.pid, self.tier, "VIOLATED" if self.violations else "held", self.states, self.transitions,
             self.validated, wall))
         return 1 if self.violations else 0
+
+
+def shrink(obj, keep=24):
+    """Evidence samples are illustrations: long arrays (the long-window cases hold tens of thousands of
+    positions) are cut to their first elements with a note of how many were dropped."""
+    if isinstance(obj, list):
+        if len(obj) > keep:
+            return [shrink(x, keep) for x in obj[:keep]] + ["... %d more" % (len(obj) - keep)]
+        return [shrink(x, keep) for x in obj]
+    if isinstance(obj, dict):
+        return {k: shrink(v, keep) for k, v in obj.items()}
+    return obj
 
 
 def replay_file(path):
